@@ -111,9 +111,17 @@ fn renamings(p: &Program) -> Vec<Program> {
 }
 
 pub fn judge(p: &Program) -> Outcome {
+    judge_in(p, false)
+}
+
+/// `by_construction`: the program belongs to a fragment whose members are all well-kinded by
+/// construction; where the reference kind checker has no verdict (several modules), that is
+/// the expected one.
+pub fn judge_in(p: &Program, by_construction: bool) -> Outcome {
     let case = || {
         let mut v = c02::program_json(p, &print(p).texts);
         v["kind"] = json!("programs");
+        v["well_kinded_by_construction"] = json!(by_construction);
         v
     };
     let base_files = pipeline::files_of(&print(p).texts);
@@ -128,6 +136,14 @@ pub fn judge(p: &Program) -> Outcome {
         Verdict::NotInScope => Some("NotInScope"),
         Verdict::Duplicate => Some("InvalidIdentifier"),
         Verdict::InvalidType(_) => Some("InvalidType"),
+        Verdict::Unsupported(_) if by_construction && p.modules.len() > 1 && {
+            let printed = print(p);
+            let r = crate::refsem::resolve(p, &printed);
+            !r.unbound && !r.duplicates && r.unspecified.is_none() && !r.decl_vs_import
+        } =>
+        {
+            Some("Accept")
+        }
         Verdict::Unsupported(_) => None,
     };
     if let Some(exp) = expected {
@@ -236,9 +252,10 @@ pub fn run(phase: &Phase, sink: &mut Sink) {
                             || {
                                 let mut v = c02::program_json(p, &print(p).texts);
                                 v["kind"] = json!("programs");
+                                v["well_kinded_by_construction"] = json!(frag.well_kinded);
                                 v
                             },
-                            |_| judge(p),
+                            |_| judge_in(p, frag.well_kinded),
                         );
                     }
                     idx += 1;
@@ -251,7 +268,7 @@ pub fn run(phase: &Phase, sink: &mut Sink) {
 pub fn replay(case: &Value) -> Outcome {
     let ast = if case["kind"] == "programs-variant" { &case["original"]["ast"] } else { &case["ast"] };
     match serde_json::from_value::<Program>(ast.clone()) {
-        Ok(p) => judge(&p),
+        Ok(p) => judge_in(&p, case["well_kinded_by_construction"] == true || case["original"]["well_kinded_by_construction"] == true),
         Err(_) => Outcome::ok("replay needs the ast", None),
     }
 }
